@@ -29,8 +29,6 @@ from vf import corpus as C
 from vf import yq
 from vf.core import Result
 
-from yaql.language import exceptions as yexc
-
 ID = 'C12'
 TITLE = 'argument spellings'
 RULE = ('all (definition, argument tuple, set of omitted defaults) groups; within a group all spellings '
